@@ -444,8 +444,16 @@ theorem splitTime_concat {α} (tr : List (Rat × α)) (dt : Rat) :
 theorem splitDist_concat {α} (l : List α) (lens : List Rat) (thr : Rat) (h : l.length = lens.length + 1) :
     (slices l (splitDistCuts lens thr)).flatten = l := by
   unfold splitDistCuts
-  rw [splitDist_steps_are_lengths, ← h]
+  rw [← h]
   exact split_concat l thr lens (by omega)
+
+/-- F17: in exact arithmetic, thresholding the differences of the accumulated path length (what `_jumps` did before
+the repair) and thresholding the step lengths (what it does now) are the same function - the defect was float64
+rounding of the accumulated length only, and the repair changes nothing else. -/
+theorem splitDist_acc_formulation_agrees (lens : List Rat) (thr : Rat) :
+    splitDistCutsAcc lens thr = splitDistCuts lens thr := by
+  unfold splitDistCutsAcc splitDistCuts
+  rw [splitDist_steps_are_lengths]
 
 theorem splitSpeed_concat {α} (tr : List (Rat × α)) (lens : List Rat) (vmax : Rat) (cuts : List Nat)
     (hl : lens.length = tr.length - 1)
